@@ -77,10 +77,13 @@ PTYPES = ['string', 'uint32', 'boolean', 'sint64', 'real64', 'datetime',
           'uint8']
 
 
-def qual_decls():
+def qual_decls(partial=False):
+    """partial: the scopes dict only lists the scopes that apply (as a user
+    writing CIMQualifierDeclaration(scopes={'ANY': True}) would)."""
     out = []
     for name, typ, ts, ov, scopes in QD.values():
-        sc = {s: (s in scopes) for s in SCOPES_ANY}
+        sc = {s: True for s in scopes} if partial else \
+            {s: (s in scopes) for s in SCOPES_ANY}
         out.append(CIMQualifierDeclaration(
             name, typ, is_array=False, scopes=sc, tosubclass=ts,
             overridable=ov, translatable=False, toinstance=False))
@@ -398,6 +401,7 @@ def gen_plan(run_seed, tier, index):
             steps.append({'op': 'delete', 'name': 'NoSuchClass', 'gone': [],
                           'reject': True})
     return {'check': ID, 'forest': forest, 'steps': steps,
+            'partial_scopes': r.random() < 0.3,
             'order_seed': r.getrandbits(30), 'query_seed': r.getrandbits(30)}
 
 
@@ -430,9 +434,9 @@ def build_class(spec):
                     qualifiers=mkquals(spec['quals']))
 
 
-def new_conn():
+def new_conn(partial=False):
     c = pywbem_mock.FakedWBEMConnection(default_namespace=NS)
-    for q in qual_decls():
+    for q in qual_decls(partial):
         c.SetQualifier(q, namespace=NS)
     return c
 
@@ -835,12 +839,13 @@ def execute(plan):
     # ---- P1: three replicas
     conns = []
     for via in ('api', 'api', 'mof'):
-        c = new_conn()
+        c = new_conn(plan.get('partial_scopes', False))
         try:
             for s in topo_order(ro, forest):
                 put_class(c, s, via)
-        except (pywbem.Error, ValueError) as e:
-            V.append({'sig': 'C12/valid-class-rejected/%s' % via,
+        except Exception as e:  # pylint: disable=broad-except
+            V.append({'sig': 'C12/valid-class-rejected/%s/%s' % (
+                via, type(e).__name__),
                       'msg': 'building the forest via %s: class %s rejected:'
                              ' %r' % (via, s['name'], e)})
             c = None
@@ -913,7 +918,7 @@ def execute(plan):
                 m.inst[(st['cls'].lower(), st['key'])] = True
                 touched.append(st['cls'].lower())
                 outcome = 'ok'
-        except (pywbem.Error, ValueError) as e:
+        except Exception as e:  # pylint: disable=broad-except
             outcome = 'rejected'
             if st.get('reject'):
                 bump(faults, 'rejected_%s' % op)
